@@ -124,14 +124,27 @@ Record opts := {
   o_git_ignore : bool; o_git_exclude : bool; o_require_git : bool
 }.
 
+(* what `dir/.git` is on disk (after following symbolic links, as fs::metadata does): nothing, a
+   directory (an ordinary repository), or a regular file (a gitlink `gitdir: <path>`: the root of a
+   linked worktree or of a submodule) *)
+Inductive dotgit := GitAbsent | GitDir | GitFile.
+
+(* Ignore::add_child_path: dir.join(".git").metadata().ok().map(|md| md.file_type()) ... 
+   has_git = git_type.map(|_| true).unwrap_or(false) *)
+Definition child_dotgit_test (k : dotgit) : bool :=
+  match k with GitAbsent => false | GitDir => true | GitFile => true end.
+(* Ignore::add_parents: parent.join(".git").exists() *)
+Definition parent_dotgit_test (k : dotgit) : bool :=
+  match k with GitAbsent => false | GitDir => true | GitFile => true end.
+
 (* what one directory carries on disk, as compiled by create_gitignore for each source *)
 Record dirinfo := {
   di_path : bytes;            (* the directory's path as the walker spells it *)
   di_custom : gmatcher;       (* custom ignore file names (.rgignore for rg) *)
   di_dotignore : gmatcher;    (* .ignore *)
   di_gitignore : gmatcher;    (* .gitignore *)
-  di_exclude : gmatcher;      (* $GIT_COMMON_DIR/info/exclude *)
-  di_has_dotgit : bool        (* dir/.git exists *)
+  di_exclude : gmatcher;      (* $GIT_COMMON_DIR/info/exclude of the repository rooted here (through the gitlink when .git is a file) *)
+  di_dotgit : dotgit          (* what dir/.git is *)
 }.
 
 (* IgnoreInner, per directory part *)
@@ -182,14 +195,30 @@ Definition build_root (o : opts) (e : env) : ignore :=
                  sh_opts := o |} |}.
 
 (* Ignore::add_child_path (the node it creates) *)
+(* add_child_path's `git_type`: dir/.git is looked at only when repositories are required and a git
+   source is on; otherwise it is None, like for a directory without .git *)
+Definition git_type_seen (o : opts) (d : dirinfo) : dotgit :=
+  if o_require_git o && (o_git_ignore o || o_git_exclude o) then di_dotgit d else GitAbsent.
+
+(* resolve_git_commondir(dir, git_type) followed by create_gitignore(dir, git_dir, ["info/exclude"]):
+   when git_type says "file" the gitlink is followed to $GIT_COMMON_DIR, whose info/exclude is
+   [di_exclude]; otherwise dir/.git is taken for the git directory -- if that is in fact a gitfile
+   (git_type was not computed) nothing can be opened below it and the matcher is empty *)
+Definition exclude_as_read (o : opts) (d : dirinfo) : gmatcher :=
+  match git_type_seen o d, di_dotgit d with
+  | GitFile, _ => di_exclude d
+  | _, GitFile => g_empty
+  | _, _ => di_exclude d
+  end.
+
 Definition child_node (sh : shared) (d : dirinfo) : node :=
   let o := sh_opts sh in
-  let has_git := if o_require_git o && (o_git_ignore o || o_git_exclude o) then di_has_dotgit d else false in
+  let has_git := child_dotgit_test (git_type_seen o d) in
   {| nd_dir := di_path d;
      nd_custom := if sh_custom_names_empty sh then g_empty else di_custom d;
      nd_ignore := if negb (o_ignore o) then g_empty else di_dotignore d;
      nd_gi := if negb (o_git_ignore o) then g_empty else di_gitignore d;
-     nd_excl := if negb (o_git_exclude o) then g_empty else di_exclude d;
+     nd_excl := if negb (o_git_exclude o) then g_empty else exclude_as_read o d;
      nd_has_git := has_git;
      nd_abs := false |}.
 
@@ -204,7 +233,7 @@ Definition parent_node (sh : shared) (d : dirinfo) : node :=
   let n := child_node sh d in
   {| nd_dir := nd_dir n; nd_custom := nd_custom n; nd_ignore := nd_ignore n; nd_gi := nd_gi n;
      nd_excl := nd_excl n;
-     nd_has_git := if o_require_git o && o_git_ignore o then di_has_dotgit d else false;
+     nd_has_git := if o_require_git o && o_git_ignore o then parent_dotgit_test (di_dotgit d) else false;
      nd_abs := true |}.
 
 Definition add_parents (ig : ignore) (canon : option bytes) (parents : list dirinfo) : ignore :=
@@ -356,7 +385,7 @@ Inductive tnode :=
 
 Definition with_path (d : dirinfo) (p : bytes) : dirinfo :=
   {| di_path := p; di_custom := di_custom d; di_dotignore := di_dotignore d; di_gitignore := di_gitignore d;
-     di_exclude := di_exclude d; di_has_dotgit := di_has_dotgit d |}.
+     di_exclude := di_exclude d; di_dotgit := di_dotgit d |}.
 
 Definition depth_ok (max_depth : option nat) (depth : nat) : bool :=
   match max_depth with None => true | Some m => Nat.leb depth m end.
